@@ -44,15 +44,30 @@ type Case struct {
 	Mut     string `json:"mut"` // "" | signed field | "idlen" (byte length of one identity preimage changed)
 	// Ann is the history of keyper sets announced for the eon, oldest first: "S" = members
 	// 0..n-1, "X" = outsider, members 0..n-2.  The eon's set is the last one.
+	// "O" = the set S announced for another eon.  No "S"/"X": the eon has no keyper set.
 	Ann []string `json:"ann"`
+	// Key: the access node's eon public key of the message's eon: stored "before" / "after" the
+	// announcements, or "none".
+	Key string `json:"key"`
 }
 
-// LastAnn is the keyper set of the eon.
+// LastAnn is the keyper set of the eon ("" = none was announced for it).
 func (c *Case) LastAnn() string {
-	if len(c.Ann) == 0 {
-		return "S"
+	for i := len(c.Ann) - 1; i >= 0; i-- {
+		if c.Ann[i] != "O" {
+			return c.Ann[i]
+		}
 	}
-	return c.Ann[len(c.Ann)-1]
+	return ""
+}
+
+// OtherEon returns the eon value of the universe that the message does not carry.
+func (u *Universe) OtherEon(msgEon uint64) uint64 {
+	e := u.Eons()
+	if e[0] == msgEon {
+		return e[1]
+	}
+	return e[0]
 }
 
 // Tuple is the concrete signed data.
@@ -462,9 +477,12 @@ func (u *Universe) Describe(c *Case) map[string]any {
 	for i := range c.Sigs {
 		sigs = append(sigs, fmt.Sprintf("%x", u.Signature(c, i)))
 	}
-	keypers := u.KeyperSet(c, t.Eon, c.LastAnn()).Keypers
+	keypers := []string{}
+	if c.LastAnn() != "" {
+		keypers = u.KeyperSet(c, t.Eon, c.LastAnn()).Keypers
+	}
 	return map[string]any{
 		"instance": t.Instance, "eon": t.Eon, "slot": t.Slot, "tx_pointer": t.TxPtr, "identity_preimages": ids,
-		"signer_indices": u.SignerIndices(c), "signatures": sigs, "keypers": keypers, "threshold": c.T, "announced": c.Ann,
+		"signer_indices": u.SignerIndices(c), "signatures": sigs, "keypers": keypers, "threshold": c.T, "announced": c.Ann, "eon_key": c.Key,
 	}
 }
